@@ -75,13 +75,19 @@ func (env *vhEnv) checkOutcome(o vhObs, step string) {
 
 // One melt (external payment) followed by up to nPolls state polls, against a scripted backend.
 func vhMeltFlow(mode int, nPolls int) {
-	env := vhNewEnv(2)
+	nKs, maxIn := 2, 2
+	if mode&vhC05 != 0 {
+		nKs, maxIn = 1, 1 // C05 explores the backend script; input validation is C01/C02/C04
+	}
+	env := vhNewEnv(nKs)
 	m := env.m
 	raw := env.db.VhRaw()
-	v.SqlSymRows(raw, "proofs", 1)
-	v.SqlSymRows(raw, "pending_proofs", 1)
+	if mode&vhC05 == 0 {
+		v.SqlSymRows(raw, "proofs", 1)
+		v.SqlSymRows(raw, "pending_proofs", 1)
+	}
 	q := env.meltQuote("mq1", nut05.Unpaid)
-	nIn := v.Int("nIn", 1, 2)
+	nIn := v.Int("nIn", 1, maxIn)
 	in := make(cashu.Proofs, nIn)
 	ys := make([]string, nIn)
 	for i := range in {
